@@ -19,7 +19,11 @@ RULE = ("Hypothesis draws the structure - coefficient-vector length 1..60 (thoro
         "pattern of NaN / +inf / -inf samples (random, row+column, outside the disc, and valid samples only on a "
         "sub-aperture / a thin annulus / a half plane, which makes disc- or square-orthogonal bases poorly conditioned) - "
         "and an integer from which the "
-        "coefficient values and coordinates are expanded.  Oracle: the explicit sum  sum_k c_k * mode_k  built by the "
+        "coefficient values and coordinates are expanded; an overall decimal exponent of the data (1, 1e-9, 1e-12, 1e-17, 1e-20, 1e-30, 1e6, 1e30; "
+        "within the float32 range where single precision takes part): of the coefficients of every sum, for sum_of_2d_modes of the weights, of the "
+        "modes, or of both in opposite directions, for lstsq of the data and (separately) of all modes alike, for Interferogram.pvr of the heights; sum_of_2d_modes also with modes that "
+        "are NaN at a quarter of the samples (the sum is NaN there and right elsewhere); lstsq also with modes that hold NaN / +-inf / 1e300 / a mixture "
+        "at the samples the fit is told to ignore (all modes, or one of them).  Oracle: the explicit sum  sum_k c_k * mode_k  built by the "
         "harness from the scalar mode functions (jacobi, Qbfs, Qcon, Q2d, zernike_nm) or from the mode arrays "
         "themselves (sum_of_2d_modes); structural laws of the Q2d coefficient packer; for lstsq the synthesising "
         "coefficients, invariance under exchanging one non-finite marker for another, and for data that is not in the "
@@ -34,7 +38,7 @@ RULE = ("Hypothesis draws the structure - coefficient-vector length 1..60 (thoro
         "absolute over 3000 bases with cond 1 .. 1e10; a normal-equation solver is wrong by cond^2 eps).  Non-trivial = "
         "sparse or length-1 vector, or an azimuthal order present in one family only, or "
         "a non-finite sample present, or a coordinate array that is not 1-D, or a non-default container / dtype / layout / "
-        "entry point / history.")
+        "entry point / history / magnitude.")
 ASSUMPTIONS = ["the scalar mode functions are the reference for the sums (their own correctness is C07)",
                "numpy / scipy linear algebra is correct", "coefficient vectors are non-empty and dense in order "
                "(ascending from order 0) as documented, floating point (integer ndarrays are not 'iterable of float'); the "
@@ -45,6 +49,23 @@ ASSUMPTIONS = ["the scalar mode functions are the reference for the sums (their 
 LMAX = {'quick': 60, 'thorough': 150}
 DMAX = {'quick': 7, 'thorough': 12}
 EPS = float(np.finfo(np.float64).eps)
+# magnitude of the data (every sum is linear in the coefficients, every fit in the data): an overall decimal exponent.  Picometres
+# written in metres, 1e-17 .. 1e-30 (far below machine epsilon in absolute terms), microns of a large part, photon counts
+WEXPS = [0, 0, 0, 0, -9, -9, -12, -17, -20, -30, 6, 30]
+wexps = st.sampled_from(WEXPS)
+
+
+def wexp_of(case, single=False, integer=False, hi=6):
+    """the decimal exponent of the case (0 in replays recorded before it existed); whole-number containers carry none, single
+    precision keeps it where neither the coefficients nor the partial sums leave the float32 range"""
+    e = int(case.get('wexp', 0))
+    if integer:
+        return 0
+    return max(-30, min(e, hi)) if single else e
+
+
+def exp_label(e):
+    return 'magnitude:1' if e == 0 else 'magnitude:1e%+d' % e if abs(e) < 15 else 'magnitude:<=1e-17' if e < 0 else 'magnitude:1e+30'
 
 
 # ---- shared strategies -----------------------------------------------------------------------------
@@ -203,7 +224,11 @@ def strat_tensor(tier):
                                                            st.just([1, 1]), st.just([67, 263])),
         'container': st.sampled_from(['array', 'array', 'list', 'list-weights', 'tuple', 'int-weights']),
         'dtype': st.sampled_from(['float64', 'float64', 'float32', 'complex128']), 'layout': U.layouts,
-        'history': st.sampled_from(['none', 'none', 'single-first', 'other-weights']), 'kw': st.booleans(), 'seed': U.seeds})
+        'history': st.sampled_from(['none', 'none', 'single-first', 'other-weights']), 'kw': st.booleans(), 'seed': U.seeds,
+        # magnitude: the weights, the modes, or both in opposite directions (sum of order 1) carry the decimal exponent
+        'wexp': wexps, 'scaled': st.sampled_from(['weights', 'weights', 'modes', 'opposite']),
+        # the modes are NaN at some samples (outside an aperture): the sum is NaN there and right everywhere else
+        'nanpix': st.sampled_from([False, False, False, True])})
 
 
 def check_tensor(case, ctx):
@@ -223,11 +248,25 @@ def check_tensor(case, ctx):
     modes = U.rng_of(case['seed'], 2).uniform(-1, 1, (k,) + shape)
     if dtype.startswith('complex'):
         modes = modes + 1j * U.rng_of(case['seed'], 3).uniform(-1, 1, (k,) + shape)
+    e = wexp_of(case, single=dtype == 'float32', hi=30)
+    scaled = case.get('scaled', 'weights')
+    if container == 'int-weights':
+        scaled = 'modes'                                 # whole-number weights: only the modes carry the magnitude
+    if e and scaled in ('weights', 'opposite'):
+        w = w * 10.0 ** e
+    if e and scaled in ('modes', 'opposite'):
+        modes = modes * 10.0 ** (e if scaled == 'modes' else -e)
+    mscale = 10.0 ** ((e if scaled == 'modes' else -e if scaled == 'opposite' else 0) if e else 0)
+    nanpix = bool(case.get('nanpix', False)) and int(np.prod(shape)) > 1
+    if nanpix:
+        hole = U.rng_of(case['seed'], 4).uniform(0, 1, shape) < 0.25
+        modes[:, hole] = np.nan
     modes = U.relayout(modes.astype(dtype), layout)
     cls = coef_class(w)
-    ctx.nt(cls != 'dense' or shape[0] != shape[-1] or dtype != 'float64' or layout != 'C' or container != 'array' or history != 'none')
+    ctx.nt(cls != 'dense' or shape[0] != shape[-1] or dtype != 'float64' or layout != 'C' or container != 'array' or history != 'none' or e != 0 or nanpix)
     ctx.label(cls, 'ndim%d' % len(shape), container, dtype, 'k==rows' if k == shape[0] else 'k!=rows', 'layout:' + layout,
-              'history:' + history, 'len>=13' if k >= 13 else 'len<13', 'big' if int(np.prod(shape)) > 2 ** 12 else 'small')
+              'history:' + history, 'len>=13' if k >= 13 else 'len<13', 'big' if int(np.prod(shape)) > 2 ** 12 else 'small',
+              exp_label(e), 'scaled:' + (scaled if e else 'nothing'), 'modes-nan-at-some-samples' if nanpix else 'modes-finite')
     arg_m = {'list': [m for m in modes], 'list-weights': [m for m in modes], 'tuple': tuple(m for m in modes)}.get(container, modes)
     arg_w = {'list-weights': [float(v) for v in w], 'tuple': tuple(float(v) for v in w), 'int-weights': w.astype(np.int64)}.get(container, w.copy())
     if history == 'single-first':
@@ -242,16 +281,18 @@ def check_tensor(case, ctx):
     for i in range(k):
         want = want + w[i] * modes[i].astype(want.dtype)
     U.check_shape(got, shape, 'sum_of_2d_modes:' + cls, 'sum of %d modes of shape %s' % (k, shape))
-    mag = float(np.sum(np.abs(w))) * (1.5 if dtype.startswith('complex') else 1.0)
+    mag = float(np.sum(np.abs(w))) * (1.5 if dtype.startswith('complex') else 1.0) * mscale
     rtol = 1e-12 * k if dtype in ('float64', 'complex128') else 1e-5 * k
-    cmp_sum(got, want, mag, 'sum_of_2d_modes:%s:%s' % (cls, dtype), 'sum_of_2d_modes of %d modes %s (%s, %s)' % (k, shape, container, layout), rtol=rtol)
+    mcls = '' if e == 0 else ':%s-1e%+d' % (scaled, e)
+    cmp_sum(got, want, mag, 'sum_of_2d_modes:%s:%s%s' % (cls, dtype, mcls), 'sum_of_2d_modes of %d modes %s (%s, %s%s%s)' % (
+        k, shape, container, layout, mcls.replace(':', ', '), ', modes NaN at %d samples' % int(hole.sum()) if nanpix else ''), rtol=rtol)
     kept = np.array(got, copy=True)
     other = _guard(ctx, cls, P.sum_of_2d_modes, arg_m, w[::-1].copy())
     U.check_equal(np.asarray(got), kept, 'sum_of_2d_modes:result-overwritten', 'the first sum after a second call with other weights')
     want2 = np.zeros(shape, dtype=want.dtype)
     for i in range(k):
         want2 = want2 + w[k - 1 - i] * modes[i].astype(want.dtype)
-    cmp_sum(other, want2, mag, 'sum_of_2d_modes:second-call:%s' % dtype, 'second call with the weights reversed', rtol=rtol)
+    cmp_sum(other, want2, mag, 'sum_of_2d_modes:second-call:%s%s' % (dtype, mcls), 'second call with the weights reversed', rtol=rtol)
 
 
 # ---- Jacobi Clenshaw -------------------------------------------------------------------------------
@@ -268,7 +309,7 @@ def strat_jacobi(tier):
     return st.fixed_dictionaries({'coefs': coef_spec(LMAX[tier]), 'ab': ab, 'x': point_spec(DMAX[tier]),
                                   'container': st.sampled_from(CONTAINERS_READ_ONLY), 'via': st.sampled_from(['plain', 'plain', 'alphas-buffer', 'der-row0']),
                                   'xdtype': st.sampled_from(['float64', 'float64', 'float64', 'float32', 'complex128']), 'layout': U.layouts,
-                                  'history': st.sampled_from(['none', 'none', 'single-first', 'other-ab']), 'seed': U.seeds})
+                                  'history': st.sampled_from(['none', 'none', 'single-first', 'other-ab']), 'seed': U.seeds, 'wexp': wexps})
 
 
 def check_jacobi(case, ctx):
@@ -280,14 +321,17 @@ def check_jacobi(case, ctx):
     a, b = case['ab']
     via, xdtype, layout, history = case.get('via', 'plain'), case.get('xdtype', 'float64'), case.get('layout', 'C'), case.get('history', 'none')
     x = points(case['x'], case['seed'], -1.0, 1.0, 2, xdtype, layout)
-    arg, s = contain(s0, case['container'])
-    cls, pcls = coef_class(s), pt_class(case['x'])
     single = (xdtype == 'float32' and not isinstance(x, float)) or case['container'] == 'array-f32'
-    ctx.nt(cls != 'dense' or pcls != 'ndim1' or via != 'plain' or case['container'] != 'array' or history != 'none' or
+    e = wexp_of(case, single=single or history == 'single-first', integer=case['container'] in ('int-list', 'array-int'))
+    arg, s = contain(s0 * 10.0 ** e, case['container'])
+    cls, pcls = coef_class(s), pt_class(case['x'])
+    ctx.nt(cls != 'dense' or pcls != 'ndim1' or via != 'plain' or case['container'] != 'array' or history != 'none' or e != 0 or
            (not isinstance(x, float) and (xdtype != 'float64' or layout != 'C')))
     ctx.label(cls, pcls, 'len=%s' % (len(s) if len(s) < 4 else ('4+' if len(s) < 13 else '13+')), 'a+b in {0,-1}' if a + b in (0, -1) else 'general ab',
-              'container:' + case['container'], 'via:' + via, 'history:' + history,
+              'container:' + case['container'], 'via:' + via, 'history:' + history, exp_label(e),
               *([] if isinstance(x, float) else ['x:' + xdtype, 'layout:' + layout]))
+    if e:
+        cls += ':coefficients-1e%+d' % e
 
     def fast(sarg, aa, bb, xx):
         if via == 'alphas-buffer':
@@ -329,7 +373,7 @@ def strat_q1d(tier):
     return st.fixed_dictionaries({'fn': st.sampled_from(['clenshaw_qbfs', 'clenshaw_qbfs_der', 'compute_z_zprime_Qbfs', 'compute_z_zprime_Qcon']),
                                   'coefs': coef_spec(LMAX[tier]), 'u': point_spec(DMAX[tier]).filter(lambda s: s[0] == 'array'),
                                   'container': st.sampled_from(CONTAINERS), 'udtype': st.sampled_from(['float64', 'float64', 'float64', 'float32']),
-                                  'layout': U.layouts, 'history': st.sampled_from(['none', 'none', 'single-first', 'other-fn']), 'seed': U.seeds})
+                                  'layout': U.layouts, 'history': st.sampled_from(['none', 'none', 'single-first', 'other-fn']), 'seed': U.seeds, 'wexp': wexps})
 
 
 def check_q1d(case, ctx):
@@ -340,12 +384,15 @@ def check_q1d(case, ctx):
     c0 = expand_coefs(case['coefs'], case['seed'], 1)
     udtype, layout, history = case.get('udtype', 'float64'), case.get('layout', 'C'), case.get('history', 'none')
     u = points(case['u'], case['seed'], 0.0, 1.0, 2, udtype, layout)
-    arg, c = contain(c0, case['container'])
-    cls, pcls, fn = coef_class(c), pt_class(case['u']), case['fn']
     single = udtype == 'float32' or case['container'] == 'array-f32'
-    ctx.nt(cls != 'dense' or pcls != 'ndim1' or case['container'] != 'array' or history != 'none' or udtype != 'float64' or layout != 'C')
+    e = wexp_of(case, single=single or history == 'single-first', integer=case['container'] in ('int-list', 'array-int'))
+    arg, c = contain(c0 * 10.0 ** e, case['container'])
+    cls, pcls, fn = coef_class(c), pt_class(case['u']), case['fn']
+    ctx.nt(cls != 'dense' or pcls != 'ndim1' or case['container'] != 'array' or history != 'none' or udtype != 'float64' or layout != 'C' or e != 0)
     ctx.label(fn, cls, pcls, 'len=%s' % (len(c) if len(c) < 4 else ('4+' if len(c) < 13 else '13+')), 'container:' + case['container'],
-              'u:' + udtype, 'layout:' + layout, 'history:' + history)
+              'u:' + udtype, 'layout:' + layout, 'history:' + history, exp_label(e))
+    if e:
+        cls += ':coefficients-1e%+d' % e
     usq = u * u
     ud = f64(u)
 
@@ -414,7 +461,7 @@ def strat_q2d(tier):
     return st.fixed_dictionaries({'nms': content.flatmap(pairs), 'zero': st.sampled_from(['none', 'none', 'some']),
                                   'pts': point_spec(DMAX[tier]).filter(lambda s: s[0] == 'array'),
                                   'pairs_as': st.sampled_from(['tuples', 'tuples', 'lists', 'ndarray']), 'coefs_as': st.sampled_from(['list', 'list', 'array', 'tuple']),
-                                  'udtype': st.sampled_from(['float64', 'float64', 'float64', 'float32']), 'layout': U.layouts, 'seed': U.seeds})
+                                  'udtype': st.sampled_from(['float64', 'float64', 'float64', 'float32']), 'layout': U.layouts, 'seed': U.seeds, 'wexp': wexps})
 
 
 def _deep(v):
@@ -439,8 +486,9 @@ def check_q2d(case, ctx):
     cs = np.where(np.abs(cs) < 0.05, 0.05, cs)
     if case['zero'] == 'some' and len(nms) > 1:
         cs[r.integers(0, 2, len(nms)).astype(bool)] = 0.0
-    cs = [float(c) for c in cs]
     udtype, layout = case.get('udtype', 'float64'), case.get('layout', 'C')
+    e = wexp_of(case, single=udtype == 'float32')
+    cs = [float(c) for c in cs * 10.0 ** e]
     pairs_as, coefs_as = case.get('pairs_as', 'tuples'), case.get('coefs_as', 'list')
     u = points(case['pts'], case['seed'], 0.0, 1.0, 2, udtype, layout)
     t = points(case['pts'], case['seed'], 0.0, 2 * np.pi, 3, udtype, layout)
@@ -457,12 +505,14 @@ def check_q2d(case, ctx):
     if sin_m - cos_m:
         cls += ':sin-only-order'
     ctx.nt(bool(lonely) or any(v == 1 for v in lens.values()) or case['zero'] == 'some' or np.ndim(u) != 1 or udtype != 'float64' or layout != 'C'
-           or pairs_as != 'tuples' or coefs_as != 'list')
+           or pairs_as != 'tuples' or coefs_as != 'list' or e != 0)
     ctx.label('families=' + fam, 'order-in-one-family' if lonely else 'orders-paired', 'ndim%d' % np.ndim(u),
               'has-len1-vector' if any(v == 1 for v in lens.values()) else 'no-len1-vector',
               'unequal-lengths' if any(lens.get(m) != lens.get(-m) for m in cos_m & sin_m) else 'equal-or-unpaired',
               'pairs_as:' + pairs_as, 'coefs_as:' + coefs_as, 'u:' + udtype, 'layout:' + layout,
-              'maxn>=9' if max(n for n, _ in nms) >= 9 else 'maxn<9')
+              'maxn>=9' if max(n for n, _ in nms) >= 9 else 'maxn<9', exp_label(e))
+    if e:
+        cls += ':coefficients-1e%+d' % e
 
     arg_nms = {'lists': [list(p) for p in nms], 'ndarray': np.asarray(nms, dtype=np.int64).reshape(len(nms), 2)}.get(pairs_as, list(nms))
     arg_cs = {'array': np.asarray(cs, dtype=np.float64), 'tuple': tuple(cs)}.get(coefs_as, list(cs))
@@ -529,7 +579,7 @@ def strat_q2d_direct(tier):
                                   'pts': point_spec(DMAX[tier]).filter(lambda s: s[0] == 'array'),
                                   'container': st.sampled_from(['list', 'list', 'array', 'array', 'tuple', 'view']),
                                   'udtype': st.sampled_from(['float64', 'float64', 'float64', 'float32']), 'layout': U.layouts,
-                                  'history': st.sampled_from(['none', 'none', 'single-first', 'other-coefs']), 'seed': U.seeds})
+                                  'history': st.sampled_from(['none', 'none', 'single-first', 'other-coefs']), 'seed': U.seeds, 'wexp': wexps})
 
 
 def check_q2d_direct(case, ctx):
@@ -542,9 +592,11 @@ def check_q2d_direct(case, ctx):
     r = U.rng_of(case['seed'], 1)
     container, udtype, layout, history = case.get('container', 'list'), case.get('udtype', 'float64'), case.get('layout', 'C'), case.get('history', 'none')
 
+    e = wexp_of(case, single=udtype == 'float32' or history == 'single-first')
+
     def vec(n):
         c = r.uniform(-1, 1, n)
-        return [float(v) for v in np.where(np.abs(c) < 0.05, 0.05, c)]
+        return [float(v) for v in np.where(np.abs(c) < 0.05, 0.05, c) * 10.0 ** e]
 
     def wrap(v):
         if v is None or container == 'list':
@@ -559,9 +611,12 @@ def check_q2d_direct(case, ctx):
     has1 = any(v == 1 for v in alens + blens) or (cm0 is not None and len(cm0) == 1)
     cls = ('a-empty' if any(a == 0 and b > 0 for a, b in zip(alens, blens)) else '') + \
           ('b-empty' if any(b == 0 and a > 0 for a, b in zip(alens, blens)) else '') or 'paired'
-    ctx.nt(one_only or has1 or np.ndim(u) != 1 or container != 'list' or udtype != 'float64' or layout != 'C' or history != 'none')
+    ctx.nt(one_only or has1 or np.ndim(u) != 1 or container != 'list' or udtype != 'float64' or layout != 'C' or history != 'none' or e != 0)
     ctx.label(cls, 'has-len1-vector' if has1 else 'no-len1-vector', 'cm0=%s' % ('None' if cm0 is None else ('empty' if not cm0 else 'given')),
-              'M=0' if M == 0 else 'M>0', 'ndim%d' % np.ndim(u), 'container:' + container, 'u:' + udtype, 'layout:' + layout, 'history:' + history)
+              'M=0' if M == 0 else 'M>0', 'ndim%d' % np.ndim(u), 'container:' + container, 'u:' + udtype, 'layout:' + layout, 'history:' + history,
+              exp_label(e))
+    if e:
+        cls += ':coefficients-1e%+d' % e
     a_cm0, a_ams, a_bms = wrap(cm0), [wrap(v) for v in ams], [wrap(v) for v in bms]
     if history == 'single-first':
         _guard(ctx, cls, Q.compute_z_zprime_Q2d, a_cm0, a_ams, a_bms, points(case['pts'], case['seed'], 0.0, 1.0, 2, 'float32', layout),
@@ -610,7 +665,11 @@ def strat_lstsq(tier):
     g = st.integers(0, 10)
     common = {'kw': st.booleans(), 'frac': st.sampled_from([0.05, 0.2, 0.5]), 'container': st.sampled_from(['array', 'array', 'list', 'tuple']), 'layout': U.layouts,
               'modes_layout': U.layouts, 'geom': st.tuples(g, g, g).map(list), 'history': st.sampled_from(['none', 'none', 'single-first', 'other-data']),
-              'seed': U.seeds}
+              'seed': U.seeds,
+              # magnitude of the data (heights in metres, photon counts) and of the basis (all modes alike: the conditioning is unchanged)
+              'wexp': wexps, 'mexp': st.sampled_from([0, 0, 0, 0, -9, -17, 6, 30]),
+              # what the modes hold at the samples the fit is told to ignore: a basis that is NaN / infinite outside its aperture
+              'modes_bad': st.sampled_from(['finite', 'finite', 'nan', 'nan', 'inf', 'mixed', 'one-mode-nan', 'huge'])}
     ordinary = st.fixed_dictionaries(dict(common, **{
         'k': st.one_of(st.sampled_from([1, 2, 3]), st.integers(1, 10)),
         'shape': st.one_of(st.tuples(d, d).map(list), d.map(lambda a: [a, a]), st.tuples(d, d).map(list), st.tuples(d, d).map(list), st.just([129, 521])),
@@ -713,17 +772,34 @@ def check_lstsq(case, ctx):
         if k < 1:
             ctx.exclude('not even one mode is non-zero on the valid samples')
         cond = _cond(A_all[:, :k])
-    modes, c = np.ascontiguousarray(modes_all[:k]), c_all[:k]
-    A = A_all[:, :k]
+    dexp, mexp = wexp_of(case), int(case.get('mexp', 0))
+    if history == 'single-first':        # the single-precision fit that precedes the checked one must stay inside the float32 range
+        dexp, mexp = max(-20, min(dexp, 6)), max(-9, min(mexp, 6))
+    modes, c = np.ascontiguousarray(modes_all[:k]) * 10.0 ** mexp, c_all[:k] * 10.0 ** (dexp - mexp)
+    A = A_all[:, :k] * 10.0 ** mexp
     data = np.tensordot(c, modes, axes=(0, 0))
-    ctx.nt(bad.any() or cplx or history != 'none' or mlay != 'C')
+    dscale = 10.0 ** dexp
+    mbad = case.get('modes_bad', 'finite') if bad.any() else 'finite'
+    ctx.nt(bad.any() or cplx or history != 'none' or mlay != 'C' or dexp != 0 or mexp != 0)
+    ctx.label('data-' + exp_label(dexp), 'modes-' + exp_label(mexp), 'modes-at-ignored-samples:' + mbad)
     dec = 0 if cond < 10 else int(np.floor(np.log10(cond)))
     ctx.label('modes:' + mkind, 'mask:' + kind, 'k=%s' % (k if k < 4 else ('4+' if k < 11 else '11+')), 'masked>0' if bad.any() else 'masked=0',
               'cond:1e%d' % dec if dec < 4 else ('cond:1e4..1e6' if dec < 6 else 'cond:1e6..1e9'), 'container:' + case['container'], 'history:' + history,
               'modes-layout:' + mlay, 'k-reduced' if k < k0 else 'k-as-drawn', 'big' if bad.size > 2 ** 16 else 'small')
-    modes_arg = U.relayout(modes, mlay)
+    modes_arg = modes
+    if mbad != 'finite':
+        # the fit ignores these samples: whatever the basis holds there (NaN outside the aperture, 1/0, an overflowed value) is irrelevant
+        modes_arg = modes.copy()
+        rm = U.rng_of(seed, 10)
+        fill = {'nan': [np.nan], 'inf': [np.inf, -np.inf], 'mixed': [np.nan, np.inf, -np.inf, 0.0, 1e300], 'one-mode-nan': [np.nan], 'huge': [1e300, -1e300]}[mbad]
+        junk = np.asarray(fill)[rm.integers(0, len(fill), modes.shape)]
+        where = np.broadcast_to(bad, modes.shape).copy()
+        if mbad == 'one-mode-nan':
+            where[np.arange(k) != int(rm.integers(0, k))] = False
+        modes_arg[where] = junk[where]
+    modes_arg = U.relayout(modes_arg, mlay)
     arg_modes = {'list': [m for m in modes_arg], 'tuple': tuple(m for m in modes_arg)}.get(case['container'], modes_arg)
-    cls = 'mask=' + kind
+    cls = 'mask=' + kind + ('' if mbad == 'finite' else ':modes-%s-at-ignored-samples' % mbad) + ('' if dexp == mexp == 0 else ':data-1e%+d:modes-1e%+d' % (dexp, mexp))
     cscale = float(np.max(np.abs(c)))
 
     def fit(d):
@@ -738,9 +814,10 @@ def check_lstsq(case, ctx):
     ctx.label('layout:' + lay)
     d1 = U.relayout(d1, lay)       # same values, another memory layout (Fortran order / transposed view / strided view)
     if history == 'single-first':
-        _guard(ctx, cls, P.lstsq, modes.astype(np.complex64 if cplx else np.float32), d1.astype(np.complex64 if cplx else np.float32))
+        with np.errstate(over='ignore'):
+            _guard(ctx, cls, P.lstsq, np.asarray(modes_arg).astype(np.complex64 if cplx else np.float32), d1.astype(np.complex64 if cplx else np.float32))
     elif history == 'other-data':
-        fit(U.relayout(np.where(bad, np.nan, 1.0 + data[::-1, ::-1]), lay))
+        fit(U.relayout(np.where(bad, np.nan, dscale + data[::-1, ::-1]), lay))
     d1_before, m_before = d1.copy(), modes_arg.copy()
     got = fit(d1)
     unchanged(ctx, d1, d1_before, 'lstsq:argument-modified:data', 'the data array')
@@ -755,14 +832,14 @@ def check_lstsq(case, ctx):
     kept = got.copy()
     if bad.any():
         # another assignment of non-finite markers, garbage "underneath": same answer
-        d2 = data + 1e3 * r.uniform(-1, 1, shape) * bad
+        d2 = data + 1e3 * dscale * r.uniform(-1, 1, shape) * bad
         other = np.asarray([np.inf, -np.inf, np.nan])[r.integers(0, 3, shape)]
         d2[bad] = other[bad]
         got2 = fit(d2)
         U.check_close(got2, got, 0.0, 'lstsq:marker-dependent:' + cls, 'same mask, different non-finite markers', atol=1e-12 * cscale)
     # data that is not in the span: every finite sample must take part, and only those
     noise = U.rng_of(seed, 8).uniform(-1, 1, shape) + (1j * U.rng_of(seed, 88).uniform(-1, 1, shape) if cplx else 0.0)
-    d3 = data + noise
+    d3 = data + noise * dscale
     d3[U.rng_of(seed, 9).uniform(0, 1, shape) < 0.15] = 0.0    # exact zeros are ordinary samples
     b = d3.ravel()[valid]
     d3[bad] = marks[bad]
@@ -783,14 +860,14 @@ def check_lstsq(case, ctx):
         ref = scipy.linalg.lstsq(A, b, lapack_driver='gelsy')[0]
         U.check_close(got3, ref, 0.0, 'lstsq:not-exactly-the-finite-samples:' + cls,
                       'lstsq on noisy data vs scipy least squares over the %d finite samples (cond %.3g)' % (int(valid.sum()), cond),
-                      atol=(1e-10 + 1e3 * EPS * (cond + cond ** 2)) * max(float(np.max(np.abs(ref))), 1.0))
+                      atol=(1e-10 + 1e3 * EPS * (cond + cond ** 2)) * max(float(np.max(np.abs(ref))), 10.0 ** (dexp - mexp)))
 
 
 # ---- consumer: Interferogram.pvr -------------------------------------------------------------------
 def strat_pvr(tier):
     return st.fixed_dictionaries({'n': st.integers(24, {'quick': 40, 'thorough': 64}[tier]), 'terms': st.lists(st.integers(1, 37), min_size=1, max_size=6, unique=True),
                                   'holes': st.sampled_from([0.0, 0.0, 0.05, 0.2]), 'radius': st.sampled_from(['auto', 0.8, 1.0]),
-                                  'layout': U.layouts, 'seed': U.seeds})
+                                  'layout': U.layouts, 'seed': U.seeds, 'wexp': wexps})
 
 
 def check_pvr(case, ctx):
@@ -799,6 +876,7 @@ def check_pvr(case, ctx):
     from prysm.interferogram import Interferogram
     from prysm import polynomials as P
     n, seed = int(case['n']), case['seed']
+    e = wexp_of(case)
     r_ = U.rng_of(seed, 1)
     ifg = ctx.call(Interferogram, np.zeros((n, n)), dx=1.0 / n)
     rr, tt = np.asarray(ifg.r), np.asarray(ifg.t)
@@ -813,7 +891,7 @@ def check_pvr(case, ctx):
     amp = 0.0
     for j in case['terms']:
         nn, mm = P.fringe_to_nm(int(j))
-        a = float(r_.uniform(0.2, 1.0))
+        a = float(r_.uniform(0.2, 1.0)) * 10.0 ** e        # heights in the unit the user chose (nm, m, ...)
         amp += a
         surf = surf + a * np.asarray(ctx.call(P.zernike_nm, nn, mm, rho, tt, norm=False))
     inside = rho <= 1
@@ -823,8 +901,8 @@ def check_pvr(case, ctx):
     valid = inside & ~holes
     if valid.sum() < 150:
         ctx.exclude('too few valid samples for a 36 term fit')
-    ctx.nt(bool(holes.any()))
-    ctx.label('holes' if holes.any() else 'no-holes', 'radius:%s' % case['radius'], 'n%%2=%d' % (n % 2))
+    ctx.nt(bool(holes.any()) or e != 0)
+    ctx.label('holes' if holes.any() else 'no-holes', 'radius:%s' % case['radius'], 'n%%2=%d' % (n % 2), exp_label(e))
     lay = case.get('layout', 'C')
     ctx.label('layout:' + lay)
     ifg2 = ctx.call(Interferogram, U.relayout(data, lay), dx=1.0 / n)
@@ -833,7 +911,7 @@ def check_pvr(case, ctx):
     unchanged(ctx, ifg2.data, held, 'Interferogram.pvr:data-modified', 'the interferogram data')
     vals = surf[inside]
     want = float(vals.max() - vals.min())
-    U.check_close(got, want, 1e-8, 'Interferogram.pvr', atol=1e-8 * amp, what='pvr of a %dx%d map of Fringe terms %r, %d drop-outs (%s)' % (n, n, case['terms'], int(holes.sum()), lay))
+    U.check_close(got, want, 1e-8, 'Interferogram.pvr' + (':heights-1e%+d' % e if e else ''), atol=1e-8 * amp, what='pvr of a %dx%d map of Fringe terms %r, %d drop-outs (%s)' % (n, n, case['terms'], int(holes.sum()), lay))
     again = float(ctx.call(ifg2.pvr, **kw))
     U.check_close(again, want, 1e-8, 'Interferogram.pvr:repeat', atol=1e-8 * amp, what='pvr evaluated a second time on the same object')
 
